@@ -492,6 +492,52 @@ def _pure8(e):
     return True
 
 
+def propagate_name_aliases(fnode):
+    """N8b - `b = a` with both `a` (a local assigned once, or a parameter that is never assigned) and `b` (assigned once)
+    plain names: `b` is another name for the same object from then on; every read of `b` is written `a` and the
+    assignment is removed.  Names of nested scopes, `global` / `nonlocal` names are left alone."""
+    total = 0
+    for _ in range(50):
+        own = _own(fnode)
+        a = fnode.args
+        params = {x.arg for x in a.posonlyargs + a.args + a.kwonlyargs} | ({a.vararg.arg} if a.vararg else set()) | ({a.kwarg.arg} if a.kwarg else set())
+        banned = set()
+        for n in own:
+            if isinstance(n, (ast.Global, ast.Nonlocal)):
+                banned |= set(n.names)
+            if isinstance(n, (ast.Lambda, ast.FunctionDef, ast.AsyncFunctionDef)):
+                banned |= {x.id for x in ast.walk(n) if isinstance(x, ast.Name)}
+        stores = {}
+        for n in own:
+            if isinstance(n, ast.Name) and isinstance(n.ctx, (ast.Store, ast.Del)):
+                stores[n.id] = stores.get(n.id, 0) + 1
+        parent = {}
+        for n in [fnode] + own:
+            for c in ast.iter_child_nodes(n):
+                parent[id(c)] = n
+        done = False
+        for n in own:
+            if isinstance(n, ast.Assign) and len(n.targets) == 1 and isinstance(n.targets[0], ast.Name) and isinstance(n.value, ast.Name):
+                b, src = n.targets[0].id, n.value.id
+                if b == src or b in banned or src in banned or b in params or stores.get(b) != 1:
+                    continue
+                if not ((src in params and not stores.get(src)) or (src not in params and stores.get(src) == 1)):
+                    continue
+                pn = parent.get(id(n))
+                if pn is not fnode:
+                    continue            # only aliases made at the top level of the function (they dominate every later read)
+                for x in own:
+                    if isinstance(x, ast.Name) and x.id == b and isinstance(x.ctx, ast.Load):
+                        x.id = src
+                fnode.body[:] = [s_ for s_ in fnode.body if s_ is not n] or [ast.Pass()]
+                total += 1
+                done = True
+                break
+        if not done:
+            break
+    return total
+
+
 def inline_single_use_locals(fnode):
     """N8 - *a named intermediate*.  `t = <pure expression>; ... f(t) ...` and `... f(<pure expression>) ...` are one program
     when the local is assigned exactly once, read exactly once (not inside a nested function, lambda or comprehension), the
@@ -789,9 +835,76 @@ def positional_calls(tree):
     return count
 
 
+# ---------------------------------------------------------------------------------------------------------------- N12
+def unpack_projected_tuples(tree):
+    """N12 - `t = f(..)` with f a module function all of whose returns are tuples of one length n, `t` assigned once and read
+    only as `t[0]` .. `t[n-1]` (constant indices): written as the unpacking `t_0, .., t_{n-1} = f(..)` with the reads
+    replaced by those names.  (After N9 this is how the fields of a returned record are read.)"""
+    arity = {}
+    for st in tree.body:
+        if isinstance(st, (ast.FunctionDef, ast.AsyncFunctionDef)):
+            rets = [x for x in _own(st) if isinstance(x, ast.Return)]
+            lens = {len(r.value.elts) if isinstance(r.value, ast.Tuple) else None for r in rets}
+            if rets and len(lens) == 1 and None not in lens:
+                arity[st.name] = next(iter(lens))
+    if not arity:
+        return 0
+    count = 0
+    for fn in [n_ for n_ in ast.walk(tree) if isinstance(n_, (ast.FunctionDef, ast.AsyncFunctionDef))]:
+        own = _own(fn)
+        taken = {x.id for x in own if isinstance(x, ast.Name)} | {a.arg for a in fn.args.args}
+        stores = {}
+        for x in own:
+            if isinstance(x, ast.Name) and isinstance(x.ctx, ast.Store):
+                stores[x.id] = stores.get(x.id, 0) + 1
+        parent = {}
+        for n_ in [fn] + own:
+            for c in ast.iter_child_nodes(n_):
+                parent[id(c)] = n_
+        for a in list(own):
+            if not (isinstance(a, ast.Assign) and len(a.targets) == 1 and isinstance(a.targets[0], ast.Name) and isinstance(a.value, ast.Call) and
+                    isinstance(a.value.func, ast.Name) and a.value.func.id in arity and stores.get(a.targets[0].id) == 1):
+                continue
+            t = a.targets[0].id
+            n = arity[a.value.func.id]
+            uses = [x for x in own if isinstance(x, ast.Name) and x.id == t and isinstance(x.ctx, ast.Load)]
+            ok = bool(uses)
+            for u in uses:
+                par = parent.get(id(u))
+                if not (isinstance(par, ast.Subscript) and par.value is u and isinstance(par.ctx, ast.Load) and isinstance(par.slice, ast.Constant) and
+                        isinstance(par.slice.value, int) and 0 <= par.slice.value < n):
+                    ok = False
+            if not ok:
+                continue
+            names = []
+            for i in range(n):
+                nm = '%s_%d' % (t, i)
+                while nm in taken:
+                    nm += '_'
+                taken.add(nm)
+                names.append(nm)
+            for u in uses:
+                par = parent[id(u)]
+                gp = parent.get(id(par))
+                new = ast.copy_location(ast.Name(id=names[par.slice.value], ctx=ast.Load()), par)
+                for fld, val in ast.iter_fields(gp):
+                    if val is par:
+                        setattr(gp, fld, new)
+                    elif isinstance(val, list):
+                        for i_, v_ in enumerate(val):
+                            if v_ is par:
+                                val[i_] = new
+            a.targets[0] = ast.copy_location(ast.Tuple(elts=[ast.Name(id=x, ctx=ast.Store()) for x in names], ctx=ast.Store()), a.targets[0])
+            count += 1
+    if count:
+        ast.fix_missing_locations(tree)
+    return count
+
+
 def normalise_module(tree):
     n = 0
     n += dissolve_namedtuples(tree)
+    n += unpack_projected_tuples(tree)
     n += positional_calls(tree)
     n += inline_compiled_regex(tree)
     ms = _MaskSelect()
@@ -810,6 +923,7 @@ def normalise_module(tree):
     if os.environ.get('XRSA_NO_N8') != '1':
         for node in ast.walk(tree):
             if isinstance(node, (ast.FunctionDef, ast.AsyncFunctionDef)):
+                n += propagate_name_aliases(node)
                 n += inline_single_use_locals(node)
         ms2 = _MaskSelect()          # a mask that was held in a local is now written in place: N7 once more
         ms2.visit(tree)
